@@ -1,0 +1,9 @@
+//go:build verif
+
+// Contract for the conversion of CometBFT block results (C19, C16). Comment-only.
+package full
+
+//@ func TransactionResultsFromCometBFT
+//@   props C19
+//@   safety bounds nil
+//@   note the transactions and the results may come from an UNTRUSTED provider (stateless client, latest height: the results are not yet bound to a verified header): for every pair of lists - more results than transactions, missing (nil) results - the conversion answers with a result list or an error, it never indexes outside the transaction list and never dereferences a missing result. Failed on the pinned tree (index out of range / nil dereference: a panic in the stateless node's gRPC handlers): finding F15, fixed
